@@ -62,6 +62,8 @@ NEAR = {
     "occurs_check": [A("true"), A("false"), A("error"), A("fail"), A("on")],
     "answer_write_options": GOOD_OPTS + BAD_OPTS,
 }
+DEFAULT = {"max_arity": I(255), "bounded": A("false"), "integer_rounding_function": A("toward_zero"), "double_quotes": A("chars"),
+           "unknown": A("error"), "occurs_check": A("false"), "answer_write_options": L([])}
 VPOOL = [A(x) for x in ("true", "false", "error", "fail", "warning", "chars", "codes", "atom", "toward_zero", "down", "foo", "on", "")] + \
         [I(255), I(0), I(3), I(-1), I(256), terms.flt(1.5), C("f", A("x")), C("+", A("bounded"), A("true"))] + GOOD_OPTS[:4] + BAD_OPTS[:3]
 BAD_FLAG_ATOMS = [A("foo"), A("max_arit"), A("Unknown"), A("[]"), A("debug"), A("")]
@@ -154,7 +156,8 @@ def encode_obs(op, results):
                 if it[0] != "cmp" or it[1] != "-" or len(it[2]) != 2:
                     return "IOther", "unexpected element"
                 pairs.append("(%s, %s)" % (ground_coq(it[2][0]), ground_coq(it[2][1])))
-            return "(IRead [%s])" % "; ".join(pairs), "answers: " + terms.to_prolog(b["L"])
+            return ("(IRead [%s])" % "; ".join(pairs), "answers: " + terms.to_prolog(b["L"]),
+                    [it[2][0][1] for it in items if it[2][0][0] == "atom"])
         if op[0] == "write":
             b = single(results[0])
             if b is None:
@@ -202,6 +205,12 @@ def follow_ups(rng, f, v):
     out.append(("read", VAR, VAR))
     if f[0] == "atom":
         out.append(("read", f, VAR))
+    if f[0] == "atom" and f[1] in DEFAULT:
+        # a stale or always-true value: the default and another candidate value, flag given and flag enumerated
+        for w in (DEFAULT[f[1]], rng.choice(NEAR[f[1]])):
+            if w != v:
+                out.append(("read", f, w))
+                out.append(("read", VAR, w))
     out.append(("probe", rng.choice(PROBE_TEXTS)))
     return out
 
@@ -240,7 +249,7 @@ def gen_histories(ctx):
             seen.append(v)
             hs.append(("exh-write", [("read", VAR, VAR), ("write", f, v)] + follow_ups(rng, f, v)))
     # (c) random histories
-    for _ in range(ctx.scale(500, 20000)):
+    for _ in range(ctx.scale(400, 20000)):
         ops = []
         for _ in range(rng.choice([1, 2, 2, 3, 3, 4, 5])):
             f = rnd_flag(rng)
@@ -260,6 +269,23 @@ def pretty(coq_text):
     def sub(m):
         return '"%s"' % "".join(chr(int(x)) for x in re.findall(r"(\d+)%N", m.group(0)))
     return re.sub(r"\[\d+%N(?:; \d+%N)*\]", sub, coq_text)
+
+
+def show_many(prop, exprs):
+    """printed model values of several expressions, one coqc run"""
+    if not exprs:
+        return []
+    import os
+    d = os.path.join(core.WORK, prop, "show")
+    os.makedirs(d, exist_ok=True)
+    path = os.path.join(d, "show_many.v")
+    with open(path, "w") as f:
+        f.write("From Coq Require Import List ZArith NArith String Ascii.\nImport ListNotations.\n" + IMPORTS + "\nOpen Scope string_scope.\n")
+        for e in exprs:
+            f.write("Eval vm_compute in (%s).\n" % e)
+    rc, out = core.sh(["coqc", "-noglob", "-Q", core.COQ, "V", "-o", path + "o", path], timeout=600)
+    parts = [re.sub(r"\s+", " ", x).strip() for x in re.split(r"^\s*= ", out, flags=re.M)[1:]]
+    return parts if len(parts) == len(exprs) else ["(model value not available: %s)" % out[-300:]] * len(exprs)
 
 
 def failure_key(op):
@@ -344,16 +370,40 @@ def run(ctx):
     ctx.notes.append("model: %d distinct step checks in %.1fs" % (len(exprs), time.time() - t0))
     for k, t in errs:
         tie_breaks.append({"kind": "coq-eval", "what": "model evaluation shard failed", "detail": t})
+    # a disagreeing enumeration: name the flags whose presence differs between the implementation's answers and the model's
+    enum_exprs, enum_meta = [], []
+    for x in bad:
+        i, k, ws, oc = occ[x][0]
+        op, ob = per[i][0][k], per[i][1][k]
+        if op[0] == "read" and op[1][0] == "var" and len(ob) > 2:
+            v = "(Var 0%N)" if op[2][0] == "var" else cq(op[2])
+            for f in FLAGS:
+                enum_exprs.append('Bool.eqb (enum_has %s %s "%s") %s' % (ws, v, f, "true" if f in ob[2] else "false"))
+                enum_meta.append((x, f))
+    culprits = {}
+    if enum_exprs:
+        ebad, eerrs = core.coq_eval_bools(ctx.prop, IMPORTS, enum_exprs, chunk=max(50, -(-len(enum_exprs) // core.NPROC)), tag="enum")
+        for k, t in eerrs:
+            tie_breaks.append({"kind": "coq-eval", "what": "model evaluation shard failed (enumeration diff)", "detail": t})
+        for y in ebad:
+            x, f = enum_meta[y]
+            culprits.setdefault(x, []).append(f)
     by_key = {}
     for x in bad:
-        for (i, k, ws, oc) in occ[x]:
-            by_key.setdefault(failure_key(per[i][0][k]), []).append((k, i, ws, oc))
+        i, k, ws, oc = occ[x][0]
+        key0 = failure_key(per[i][0][k])
+        keys = ["flags:%s:%s" % (f, key0.split(":", 1)[1]) for f in culprits[x]] if x in culprits else [key0]
+        for key in keys:
+            for (i, k, ws, oc) in occ[x]:
+                by_key.setdefault(key, []).append((k, i, ws, oc))
+    chosen = []
     for key, lst in sorted(by_key.items()):
         lst.sort()
-        k, i, ws, oc = lst[0]
+        chosen.append((key, len(lst)) + lst[0])
+    specs = show_many(ctx.prop, ["expected %s (%s)" % (ws, oc) for (_, _, k, i, ws, oc) in chosen])
+    for (key, n, k, i, ws, oc), spec in zip(chosen, specs):
         ops, obs = per[i]
-        spec = core.coq_eval_show(ctx.prop, IMPORTS, "expected %s (%s)" % (ws, oc))
-        failures.append({"key": key, "what": "flag operation disagrees with the flag model (%d occurrences in this run)" % len(lst),
+        failures.append({"key": key, "what": "flag operation disagrees with the flag model (%d occurrences in this run)" % n,
                          "input": " ".join(op_text(o) for o in ops[:k + 1]), "step": op_text(ops[k]),
                          "impl": obs[k][1], "spec": pretty(spec)[:600], "property_fails": True})
     samples = []
